@@ -35,7 +35,7 @@ def verify_in_worktree(wt, seed):
     demo_dir = meta.get("demo_dir", ".") or "."
     demo_dst = os.path.join(wt, demo_dir, "zz_seed_demo_test.go")
     log = {}
-    sh("git checkout -- . && git clean -fdq -e 'SEED*'", cwd=wt)
+    sh("git checkout -- . && git clean -fdq -e 'SEED*' -e '_SEED*'", cwd=wt)
     rc, out = sh(f"git apply {seed}/patch.diff", cwd=wt)
     log["apply"] = rc == 0
     if rc != 0:
@@ -93,6 +93,8 @@ def run_checks(patch, props, tier):
 
 def confirm(wt, i, props, tier):
     seed = f"SEED{i}"
+    if not os.path.isdir(os.path.join(wt, seed)) and os.path.isdir(os.path.join(wt, "_" + seed)):
+        seed = "_" + seed
     meta, log = verify_in_worktree(wt, seed)
     pid = meta.get("property") or os.path.basename(wt)
     ok = all(log.get(k) for k in ("apply", "build", "suite_passes_with_patch", "demo_fails_with_patch", "demo_passes_without_patch"))
